@@ -92,6 +92,10 @@ class C01:
             keys = make_keys(S, suite, 5 if tier == "quick" else 12, label="keygen")
             shapes = [(L, h) for L in Ls for h in (None, b"", rb(rng, 16), rb(rng, 300))]
             flows = honest_sigs(S, suite, keys, shapes, label="sign")
+            # EVERY header length 0..64 (quick: 0..40) at 16 and 17 messages, and 800..840 at no message: the length of the domain input
+            # (public key, L + 1 generators, api id, header) then sweeps a window around 1024 octets octet by octet
+            hs_ = [(L_, rb(rng, hl_)) for L_ in (16, 17) for hl_ in range(0, 41 if tier == "quick" else 65)] + [(0, rb(rng, hl_)) for hl_ in range(800, 841, 1 if tier != "quick" else 2)]
+            flows += honest_sigs(S, suite, keys, hs_, label="sign(header-length sweep)")
             # very long messages / header and thousands of messages (hashed inputs beyond 2^16 bytes)
             sk_, pk_ = keys[0]
             big = [{"suite": suite, "sk": sk_, "pk": pk_, "header": b"h", "msgs": [rb(rng, 65536), b"x"]},
@@ -191,6 +195,14 @@ class C02:
             sk_, pk_ = keys[0]; big_ = [rb(rng, 65536 + rng.randrange(5000)), b"other", rb(rng, 65535)]
             rbig = S.run(["sign %s %s %s %s %s" % (suite, tb(sk_), tb(pk_), "N", tl(big_))], expect="ok", label="sign(large message)")[0]
             if rbig.status == "OK": flows.append({"suite": suite, "sk": sk_, "pk": pk_, "header": None, "msgs": big_, "sig": rbig.b(0)})
+            # ... and one of MORE than 2^20 octets (implementation only: the extracted hash is too slow for it): removed / moved / altered / added => Err
+            huge = rb(rng, (1 << 20) + 1 + rng.randrange(64)); hv = [b"a", huge, b"b"]
+            rh = S.run(["sign %s %s %s N %s" % (suite, tb(sk_), tb(pk_), tl(hv))], expect="ok", label="sign(message above 2^20 octets)", model=False)[0]
+            if rh.status == "OK":
+                S.run(["verify %s %s %s N %s" % (suite, tb(pk_), tb(rh.b(0)), tl(hv))], expect="ok", label="verify(sign(message above 2^20 octets))", model=False)
+                h2 = bytearray(huge); h2[len(h2) // 2] ^= 1
+                S.run(["verify %s %s %s N %s" % (suite, tb(pk_), tb(rh.b(0)), tl(v_)) for v_ in ([b"a", b"b"], [huge, b"a", b"b"], [b"a", bytes(h2), b"b"], [b"a", huge[:-1], b"b"])],
+                      expect="err", label=["msgs:huge-removed", "msgs:huge-moved", "msgs:huge-altered", "msgs:huge-truncated"], model=False)
             lines = []; labels = []
             for f in flows:
                 base = (suite, tb(f["pk"]), tb(f["sig"]))
@@ -435,6 +447,8 @@ class C04:
                     add(pv_line(p, header=h2), "header")
                 for ph2 in header_mutations(rng, p["ph"])[:2]:
                     add(pv_line(p, ph=ph2), "ph")
+                # the presentation header replaced by the HEADER (and an absent one by the header): another statement
+                if p["header"] and p["ph"] != p["header"]: add(pv_line(p, ph=p["header"]), "ph-is-header")
                 for sk2, pk2 in keys:
                     if pk2 != p["pk"]: add(pv_line(p, pk=pk2), "pk")
                 add(pv_line(p, suite=other), "cross-suite")
